@@ -124,15 +124,15 @@ def gen(rng, tier):
         if rng.random() < 0.3:
             cfg["extra_pad"] = 1
             cfg["pad_coords"] = True
-        if rng.random() < 0.12:
+        if rng.random() < 0.2:
             # long runs down to round-off: a fast (diatomic) and a slow member, largest admissible step factor, tight
             # tolerance - the energy differences between evaluations reach 1e-15 eV while the run is still going
             cfg["batch"] = rng.choice([["h2o", "h2"], ["ch4", "hf"], ["h2co", "h2o", "hf"], ["nh3", "h2"]])
             nmax = max(len(mdsim.POOL[m][0]) for m in cfg["batch"])
             cfg["alpha"] = float(f"{min(2e-2, 1.0 / (2.0 * (nmax - 1) * keff)):.3g}")
             cfg["distort"] = 0.02
-            cfg["max_evl"] = rng.choice([200, 500])
-            cfg["force_tol"] = rng.choice([1e-9, 1e-7, 1e-5])
+            cfg["max_evl"] = rng.choice([200, 500, 1000])
+            cfg["force_tol"] = rng.choice([1e-10, 1e-9, 1e-7])
             cfg["long_run"] = True
         if rng.random() < 0.12:
             # start next to a saddle point: a triatomic member sits on the collinear stationary point of the all-pairs
